@@ -381,7 +381,13 @@ fn chunker_config_from_params<R>(
 ) -> Result<chunker::Config, ArchiveError<R>> {
     use dict::chunker_parameters::ChunkingAlgorithm;
     match ChunkingAlgorithm::try_from(p.chunking_algorithm) {
-        Ok(ChunkingAlgorithm::Buzhash) => Ok(chunker::Config::BuzHash(filter_config_from_params(&p)?)),
+        Ok(ChunkingAlgorithm::Buzhash) => {
+            // Unlike rollsum the buzhash chunker can not run with a window bigger than its chunks.
+            if p.rolling_hash_window_size > p.max_chunk_size {
+                return Err(ArchiveError::invalid_archive("invalid chunker parameters"));
+            }
+            Ok(chunker::Config::BuzHash(filter_config_from_params(&p)?))
+        }
         Ok(ChunkingAlgorithm::Rollsum) => Ok(chunker::Config::RollSum(filter_config_from_params(&p)?)),
         Ok(ChunkingAlgorithm::FixedSize) => {
             if p.max_chunk_size < 1 {
@@ -402,7 +408,6 @@ fn filter_config_from_params<R>(
         || p.rolling_hash_window_size < 1
         || p.max_chunk_size < 1
         || p.min_chunk_size > p.max_chunk_size
-        || p.rolling_hash_window_size > p.max_chunk_size
     {
         return Err(ArchiveError::invalid_archive("invalid chunker parameters"));
     }
